@@ -79,7 +79,7 @@ def main(tier):
     ev.add_tlc('design: Lifecycle protocol, all legal histories to depth %d' % (4 if quick else 6), r)
     if r.violated:
         vd.violation('design:' + r.violated[0], 'Lifecycle.tla violates %s' % r.violated[0], {'tail': r.out[-4000:]})
-    n = 800 if quick else 5000
+    n = 1500 if quick else 5000
     hists, rg = LC.gen_histories(d, n, 16 if quick else 20, V.seed())
     ev.add_tlc('history generation (simulation of Lifecycle)', rg)
     rnd = random.Random(V.seed())
